@@ -34,8 +34,10 @@ structure InvCore (s : State) : Prop where
   fdsLen : s.fds.length = s.fname.length
   /-- every link (and so every column) belongs to a frame that is registered -/
   linkFrame : ∀ k o, (k, o) ∈ s.links → k.1 ∈ s.file.map (·.2)
-  /-- an open field object whose object is still linked is the one `_columns` holds under that name -/
-  handleLink : ∀ (h : Nat) (hd : Handle), s.handles[h]? = some hd → hd.closed = false → ∀ k, (k, hd.oid) ∈ s.links → (k, h) ∈ s.cols
+  /-- an open field object (the one `_columns` holds, or a writeable view of it) whose group is still linked is valid and
+      remembers the frame the group is linked in -/
+  handleLink : ∀ (h : Nat) (hd : Handle), s.handles[h]? = some hd → hd.closed = false → ∀ k, (k, hd.oid) ∈ s.links →
+                 hd.valid = true ∧ hd.owner = some k.1 ∧ hd.home = k.1
   handleOidLt : ∀ (h : Nat) (hd : Handle), s.handles[h]? = some hd → hd.oid < s.objs.length
 
 structure Inv (s : State) : Prop extends InvCore s where
@@ -113,7 +115,8 @@ def Linked (s : State) (h : Nat) : Prop := ∀ hd, ensureValid s h = .ok hd → 
 
 /-- calls on the columns of a dataframe -/
 def Op.fieldLevel : Op → Bool
-  | .create .. | .setItem .. | .add .. | .delItem .. | .drop .. | .deleteField .. | .rename .. | .copyField .. | .moveField .. => true
+  | .create .. | .setItem .. | .add .. | .delItem .. | .drop .. | .deleteField .. | .rename .. | .copyField .. | .moveField ..
+  | .view .. => true
   | _ => false
 
 /-- the field object given to `dataframe.move`, if any, is not the left-over of a deleted column -/
@@ -123,5 +126,203 @@ def Op.srcLinked (s : State) : Op → Prop
 
 /-- the object heap only grows: no existing field object changes its type or data -/
 def ObjsExt (s s' : State) : Prop := ∃ extra, s'.objs = s.objs ++ extra
+
+/-! ### the abstract catalogue as a state machine (what every call means, with no h5 groups, dictionaries or objects) -/
+
+def Frame.empty : Frame := fun _ => none
+def Cat.empty : Cat := fun _ _ => none
+
+/-- add / replace / remove a whole dataframe -/
+def Cat.setFrame (A : Cat) (d : Nat) (fn : Name) (F : Option Frame) : Cat :=
+  fun d' fn' => if (d', fn') = (d, fn) then F else A d' fn'
+
+/-- add / replace / remove one column of a dataframe (nothing happens when the dataframe does not exist) -/
+def Cat.setCol (A : Cat) (d : Nat) (fn n : Name) (x : Option Content) : Cat :=
+  fun d' fn' => if (d', fn') = (d, fn) then (A d fn).map (fun F n' => if n' = n then x else F n') else A d' fn'
+
+/-- the abstract position of a field: dataset, dataframe name, column name -/
+structure Src where
+  d : Nat
+  frame : Name
+  col : Name
+  deriving DecidableEq, Repr
+
+def Cat.col (A : Cat) (p : Src) : Option Content := (A p.d p.frame).bind (· p.col)
+
+/-- a frame with its columns renamed by `dict` (a passed pre-check `RenameOk` makes this a bijection on the columns):
+    `n'` shows the column renamed to it, a name that was renamed away shows nothing, every other name is untouched -/
+def renFrame (dict : List (Name × Name)) (F : Frame) : Frame := fun n' =>
+  match dict.find? (fun p => p.2 == n') with
+  | some p => F p.1
+  | none => if n' ∈ dict.map (·.1) then none else F n'
+
+/-- The abstract effect of one call that returns normally. `src` is the position of the field the call was handed
+    (`df[c]` looked up now, or wherever the field object the client kept has got to), when the call takes a field. -/
+def specStep (src : Option Src) (A : Cat) : Op → Cat
+  | .create d fn n c => A.setCol d fn n (some c)
+  | .setItem d fn n _ => match src with | some p => A.setCol d fn n (A.col p) | none => A
+  | .copyField _ d fn n => match src with | some p => A.setCol d fn n (A.col p) | none => A
+  | .add d fn _ => match src with | some p => A.setCol d fn p.col (A.col p) | none => A
+  | .delItem d fn n => A.setCol d fn n none
+  | .drop d fn n => A.setCol d fn n none
+  | .deleteField d fn _ => match src with | some p => A.setCol d fn p.col none | none => A
+  | .rename d fn dict => A.setFrame d fn ((A d fn).map (renFrame dict))
+  | .moveField _ d fn n =>
+    match src with
+    | some p =>
+      if (p.d, p.frame) = (d, fn) then A.setFrame d fn ((A d fn).map (renFrame [(p.col, n)]))   -- same frame: a rename
+      else (A.setCol d fn n (A.col p)).setCol p.d p.frame p.col none                            -- else: copy, then drop
+    | none => A
+  | .createFrame d fn none => A.setFrame d fn (some Frame.empty)
+  | .createFrame d fn (some (sd, sfn)) => A.setFrame d fn (A sd sfn)
+  | .requireFrame d fn => if (A d fn).isSome then A else A.setFrame d fn (some Frame.empty)
+  | .copyFrame sd sfn d fn => A.setFrame d fn (A sd sfn)
+  | .setFrame d fn sd sfn =>
+    if sd = d then (A.setFrame d sfn none).setFrame d fn (A d sfn)      -- a frame of this dataset: a rename
+    else A.setFrame d fn (A sd sfn)                                     -- a foreign frame: a copy
+  | .delFrame d fn => A.setFrame d fn none
+  | .dropFrame d fn => A.setFrame d fn none
+  | .deleteFrame d _ sfn => A.setFrame d sfn none
+  | .moveFrame sd sfn d fn => (A.setFrame d fn (A sd sfn)).setFrame sd sfn none
+  | .reopen _ => A
+  | .view _ => A            -- a second wrapper object is not a change of the catalogue
+
+/-- one entry of the client's call log: the call, where the field it was handed was at that moment, whether it returned -/
+structure Call where
+  op : Op
+  src : Option Src
+  returned : Bool
+
+/-- a call that raises changes nothing -/
+def specCall (A : Cat) (c : Call) : Cat := if c.returned then specStep c.src A c.op else A
+
+/-- the abstract catalogue after a call log -/
+def specRun (A : Cat) (cs : List Call) : Cat := cs.foldl specCall A
+
+/-! #### reading a call log off the model -/
+
+/-- the key under which value `v` is stored -/
+def keyOfVal : Table → Nat → Option Key
+  | [], _ => none
+  | (k, v') :: t, v => if v' = v then some k else keyOfVal t v
+
+/-- where the h5 object `oid` is linked: dataset, dataframe name, column name -/
+def posOfOid (s : State) (oid : Nat) : Option Src :=
+  (keyOfVal s.links oid).bind fun gk => (keyOfVal s.file gk.1).map fun dk => ⟨dk.1, dk.2, gk.2⟩
+
+/-- the abstract position a field reference stands for -/
+def refPos (s : State) : FRef → Option Src
+  | .byName d fn c => some ⟨d, fn, c⟩
+  | .byHandle h => (s.handles[h]?).bind fun hd => if hd.closed then none else posOfOid s hd.oid
+
+/-- the field a call is handed, if it takes one -/
+def Op.ref : Op → Option FRef
+  | .setItem _ _ _ r | .add _ _ r | .deleteField _ _ r | .copyField r _ _ _ | .moveField r _ _ _ => some r
+  | _ => none
+
+def srcOf (s : State) (op : Op) : Option Src := op.ref.bind (refPos s)
+
+def callOf (v : Variant) (s : State) (op : Op) : Call := ⟨op, srcOf s op, (step v s op).isOk⟩
+
+/-- the call log of a history -/
+def callLog (v : Variant) : State → List Op → List Call
+  | _, [] => []
+  | s, op :: ops => callOf v s op :: callLog v (step v s op).state ops
+
+/-- the field object a call is handed, if any, is not the left-over of a deleted column (cf. `Op.srcLinked`, which says
+    this of `dataframe.move` only) -/
+def Op.refsLinked (s : State) (op : Op) : Prop :=
+  match op.ref with
+  | some r => ∀ h, getField s r = .ok h → Linked s h
+  | none => True
+
+/-- … along a whole history -/
+def HistLinked (v : Variant) : State → List Op → Prop
+  | _, [] => True
+  | s, op :: ops => op.refsLinked s ∧ HistLinked v (step v s op).state ops
+
+/-- the places of the abstract catalogue a call may change (everything else keeps its type and data: `specStep_untouched`) -/
+def Op.touches (src : Option Src) : Op → Src → Prop
+  | .create d fn n _, p => p = ⟨d, fn, n⟩
+  | .setItem d fn n _, p => p = ⟨d, fn, n⟩
+  | .copyField _ d fn n, p => p = ⟨d, fn, n⟩
+  | .add d fn _, p => ∃ q, src = some q ∧ p = ⟨d, fn, q.col⟩
+  | .delItem d fn n, p => p = ⟨d, fn, n⟩
+  | .drop d fn n, p => p = ⟨d, fn, n⟩
+  | .deleteField d fn _, p => ∃ q, src = some q ∧ p = ⟨d, fn, q.col⟩
+  | .rename d fn dict, p => p.d = d ∧ p.frame = fn ∧ (p.col ∈ dict.map (·.1) ∨ p.col ∈ dict.map (·.2))
+  | .moveField _ d fn n, p => p = ⟨d, fn, n⟩ ∨ src = some p
+  | .createFrame d fn _, p => (p.d, p.frame) = (d, fn)
+  | .requireFrame d fn, p => (p.d, p.frame) = (d, fn)
+  | .copyFrame _ _ d fn, p => (p.d, p.frame) = (d, fn)
+  | .setFrame d fn sd sfn, p => (p.d, p.frame) = (d, fn) ∨ (sd = d ∧ (p.d, p.frame) = (d, sfn))
+  | .delFrame d fn, p => (p.d, p.frame) = (d, fn)
+  | .dropFrame d fn, p => (p.d, p.frame) = (d, fn)
+  | .deleteFrame d _ sfn, p => (p.d, p.frame) = (d, sfn)
+  | .moveFrame sd sfn d fn, p => (p.d, p.frame) = (d, fn) ∨ (p.d, p.frame) = (sd, sfn)
+  | .reopen _, _ => False
+  | .view _, _ => False
+
+/-! #### when a call returns: the abstract pre-condition of every call -/
+
+def Cat.hasFrame (A : Cat) (d : Nat) (fn : Name) : Bool := (A d fn).isSome
+def Cat.hasCol (A : Cat) (d : Nat) (fn n : Name) : Bool := (A.col ⟨d, fn, n⟩).isSome
+
+/-- the field a call is handed exists (a looked-up name that is a column; a held object whose field is still there) -/
+def srcLive (src : Option Src) (A : Cat) : Bool :=
+  match src with
+  | some p => (A.col p).isSome
+  | none => false
+
+/-- the pre-check of `rename`, on an abstract frame (`RenameOk` with "is a column" read off the frame) -/
+def renameOkF (dict : List (Name × Name)) (F : Frame) : Bool :=
+  decide (dict.map (·.1)).Nodup && dict.all (fun p => (F p.1).isSome) && decide (dict.map (·.2)).Nodup &&
+  dict.all (fun p => !(F p.2).isSome || decide (p.2 ∈ dict.map (·.1)))
+
+/-- Exactly when a call returns normally (otherwise it raises and, by `specCall`, changes nothing).
+    `writeable()` is left out (`true`): whether it raises depends on the object's `_valid_reference` only. -/
+def specOk (src : Option Src) (A : Cat) : Op → Bool
+  | .create d fn n _ => A.hasFrame d fn && !A.hasCol d fn n
+  | .setItem d fn n _ => srcLive src A && A.hasFrame d fn && !A.hasCol d fn n
+  | .copyField _ d fn n => srcLive src A && A.hasFrame d fn && !A.hasCol d fn n
+  | .add d fn _ => match src with | some p => srcLive src A && A.hasFrame d fn && !A.hasCol d fn p.col | none => false
+  | .delItem d fn n => A.hasCol d fn n
+  | .drop d fn n => A.hasCol d fn n
+  | .deleteField d fn _ => match src with | some p => srcLive src A && decide ((p.d, p.frame) = (d, fn)) | none => false
+  | .rename d fn dict => match A d fn with | some F => renameOkF dict F | none => false
+  | .moveField _ d fn n =>
+    match src with
+    | some p =>
+      srcLive src A &&
+      (match A d fn with
+       | some F => if (p.d, p.frame) = (d, fn) then renameOkF [(p.col, n)] F else !(F n).isSome
+       | none => false)
+    | none => false
+  | .createFrame d fn none => !A.hasFrame d fn
+  | .createFrame d fn (some (sd, sfn)) => A.hasFrame sd sfn && !A.hasFrame d fn
+  | .requireFrame _ _ => true
+  | .copyFrame sd sfn d fn => A.hasFrame sd sfn && !A.hasFrame d fn
+  | .setFrame d fn sd sfn => A.hasFrame sd sfn && !A.hasFrame d fn
+  | .delFrame d fn => A.hasFrame d fn
+  | .dropFrame d fn => A.hasFrame d fn
+  | .deleteFrame d sd sfn => A.hasFrame sd sfn && A.hasFrame d sfn
+  | .moveFrame sd sfn d fn => A.hasFrame sd sfn && !A.hasFrame d fn
+  | .reopen _ => true
+  | .view _ => true
+
+def Op.isView : Op → Bool
+  | .view _ => true
+  | _ => false
+
+/-- THE abstract catalogue machine: a call whose pre-condition holds takes effect, any other call raises and changes nothing.
+    All it is told besides the call is where the field object handed in sits (`src`). -/
+def specNext (A : Cat) (c : Op × Option Src) : Cat := if specOk c.2 A c.1 then specStep c.2 A c.1 else A
+
+def specExec (A : Cat) (cs : List (Op × Option Src)) : Cat := cs.foldl specNext A
+
+/-- the calls of a history, each with the position of the field object it was handed at that moment -/
+def srcLog (v : Variant) : State → List Op → List (Op × Option Src)
+  | _, [] => []
+  | s, op :: ops => (op, srcOf s op) :: srcLog v (step v s op).state ops
 
 end Exetera.Catalogue
